@@ -258,7 +258,7 @@ def run(ck, w):
                             changed = True
             if sinks and not sanitized:
                 bad.append((b, src, sinks))
-    ck.floor("C01.4.n", "reads of Timestamp::subsec_nanosecond", n_src, 2)
+    ck.floor("C01.4.n", "reads of Timestamp::subsec_nanosecond", n_src, 1)
     if bad:
         for b, src, sinks in bad:
             ck.fail(o, b.root, "signed nanos reach %s" % sinks[0][0],
